@@ -39,6 +39,8 @@ GRAPHS: Dict[str, Dict[str, List[str]]] = {
     "subdir": {"root.yaml": ["sub/c.yaml", "a.yaml"], "sub/c.yaml": ["../a.yaml", "../b.yaml"], "a.yaml": [], "b.yaml": []},
     "cycle": {"root.yaml": ["a.yaml"], "a.yaml": ["b.yaml"], "b.yaml": ["root.yaml", "a.yaml"]},
     "samename": {"root.yaml": ["a.yaml", "sub/a.yaml"], "a.yaml": [], "sub/a.yaml": ["../b.yaml"], "b.yaml": []},
+    "skipdir": {"root.yaml": ["sub/c.yaml", "a.yaml", "sub/c.yaml", "b.yaml"], "sub/c.yaml": [], "a.yaml": [], "b.yaml": []},
+    "skipdir2": {"root.yaml": ["sub/c.yaml", "sub/d/e.yaml", "a.yaml"], "sub/c.yaml": ["d/e.yaml"], "sub/d/e.yaml": ["../../b.yaml"], "a.yaml": [], "b.yaml": []},
     "cross": {"root.yaml": ["a.yaml", "b.yaml"], "a.yaml": ["b.yaml"], "b.yaml": []},
 }
 KINDS = ("constant", "string", "alias", "struct", "message", "signal")
